@@ -65,6 +65,14 @@ def gen_cases(rng, n, profile):
                 "managed": rng.random() < 0.5,          # calls made inside `with Parallel(...)`
                 "warn_error": rng.random() < 0.3,       # close() under warnings-as-errors
                 "p_abort_race": 0.5}
+        if i < 16:
+            # a fixed share of every run, whatever the profile: generators abandoned early (close / close from another
+            # thread / drop), half of them under warnings-as-errors, inside and outside a with block, with completions
+            # arriving afterwards
+            for c in calls:
+                c[3] = "ordered" if i % 3 else "unordered"
+                c[4] = max(c[4], 6)
+            case.update(p_close=0.3, warn_error=(i % 2 == 0), managed=(i % 4 < 2))
         cases.append(case)
     return cases
 
@@ -436,8 +444,8 @@ def correspondence(ctx, profile, n_cases, extra_cases=()):
             replays.append((case, r, m, {"kind": "oracle-timing"}))
     # timing re-check: replay with long waits, serially (1 process) to avoid load effects
     if replays:
-        rcases = [{"id": c.get("id"), "mode": "replay", "events": strip_events(r["events"]), "seed": c.get("seed", 0),
-                   "expect": [len(x["obs"]) for x in m]}
+        rcases = [dict(replay_options(c), id=c.get("id"), mode="replay", events=strip_events(r["events"]), seed=c.get("seed", 0),
+                       expect=[len(x["obs"]) for x in m])
                   for c, r, m, d in replays]
         rruns = run_driver(rcases, env_extra={"M1_WAIT_LONG": "3.0"}, nproc=4)
         rmodels = model_runs(ctx, [x for x in rruns if "harness_error" not in x], name="m1r_" + profile)
@@ -466,6 +474,11 @@ def correspondence(ctx, profile, n_cases, extra_cases=()):
             k = "/".join(str(x) for x in k)
             stats["outcomes"][k] = stats["outcomes"].get(k, 0) + 1
     return {"cases": cases, "runs": runs, "mismatches": mism, "oracle_failures": orc, "stats": stats}
+
+
+def replay_options(case):
+    """the options of a case that change what the implementation is asked to do (not how the schedule is drawn)"""
+    return {k: case[k] for k in ("managed", "warn_error", "fresh_object_per_call") if k in case}
 
 
 def strip_events(events):
@@ -529,7 +542,7 @@ def standard_run(ctx, prop, profile):
         if sig in seen or len(seen) >= 4:
             continue
         seen.add(sig)
-        ctx.violation(o[1], {"kind": "oracle", "case": {"mode": "replay", "events": strip_events(r["events"])},
+        ctx.violation(o[1], {"kind": "oracle", "case": dict(replay_options(c), mode="replay", events=strip_events(r["events"])),
                              "property_tag": o[0]}, True, finding_key=key)
     if res["mismatches"] and not ctx.violations:
         c, r, d = res["mismatches"][0]
@@ -539,7 +552,7 @@ def standard_run(ctx, prop, profile):
             what += " ; the runs violate %s: %s" % (others[0][2][0], others[0][2][1])
         ctx.violation(what, {"kind": "correspondence", "correspondence": "Model/ParallelCore.v step vs m1_driver events",
                              "first_disagreement": d,
-                             "case": {"mode": "replay", "events": strip_events(r.get("events", []))}},
+                             "case": dict(replay_options(c), mode="replay", events=strip_events(r.get("events", [])))},
                       found_input=False)
     extra_cov = {}
     hook = EXTRA.get(profile)
